@@ -33,9 +33,9 @@ LEMMAS = {
     "lemma_L_COUNT": ("L-COUNT", ["C12"]),
     "lemma_mutex_step": ("L-MUTEX", ["C17"]),
     # glue U2 (proved) ==> U1 (assumed), contracts/glue_u1_u2.rs
-    "lemma_glue_poll": ("GLUE.poll", ["C16", "C04", "C15"]),
-    "lemma_glue_async_blocking_wait": ("GLUE.async_blocking_wait", ["C15", "C16", "C04"]),
-    "lemma_glue_wait_timeout": ("GLUE.wait_timeout", ["C13", "C04"]),
+    "lemma_glue_poll": ("GLUE.poll", ["C16", "C04", "C15", "C01", "C08", "C10", "C11"]),
+    "lemma_glue_async_blocking_wait": ("GLUE.async_blocking_wait", ["C15", "C16", "C04", "C01", "C10", "C11"]),
+    "lemma_glue_wait_timeout": ("GLUE.wait_timeout", ["C13", "C04", "C01", "C08", "C10", "C11"]),
     "lemma_glue_is_terminated": ("GLUE.is_terminated", ["C13"]),
     "lemma_glue_timeout_not_early": ("GLUE.timeout-not-early", ["C13"]),
 }
